@@ -191,6 +191,18 @@ pub fn cond_expr(c: &Cond) -> Expr {
         Cond::And(a, b) => cond_expr(a).and(cond_expr(b)),
         Cond::Or(a, b) => cond_expr(a).or(cond_expr(b)),
         Cond::Not(a) => cond_expr(a).not(),
+        Cond::CmpBool(a, op, v) => {
+            let l = cond_expr(a);
+            let r = lit(v);
+            match op {
+                CmpOp::Eq => l.eq(r),
+                CmpOp::Ne => l.ne(r),
+                CmpOp::Lt => l.lt(r),
+                CmpOp::Le => l.le(r),
+                CmpOp::Gt => l.gt(r),
+                CmpOp::Ge => l.ge(r),
+            }
+        }
     }
 }
 
@@ -661,6 +673,22 @@ impl<'a> Exec<'a> {
     }
 
     fn expectation(&self, op: &Op) -> Expect {
+        let e = self.expectation_inner(op);
+        if e == Expect::Ok && !self.model.saturated.is_empty() {
+            let mentions = |v: &Val| matches!(v, Val::Str(s) if self.model.saturated.contains(s));
+            let hit = match op {
+                Op::Insert { rows, .. } => rows.iter().flatten().any(mentions),
+                Op::Update { sets, .. } => sets.iter().any(|(_, v)| mentions(v)),
+                _ => false,
+            };
+            if hit {
+                return Expect::Either;
+            }
+        }
+        e
+    }
+
+    fn expectation_inner(&self, op: &Op) -> Expect {
         let m = &self.model;
         // with two-byte references the pool addresses 65,535 strings; only
         // the boundary profile pays for counting them
@@ -1054,10 +1082,16 @@ impl<'a> Exec<'a> {
                         self.viol(if phase == Phase::FirstOpen { "C02.first-open-eq" } else { "C02.edit-preserves" }, "open", m.clone());
                     }
                     if self.limits {
-                        self.viol("C20.saved-unreadable", "open", m);
+                        self.viol("C20.saved-unreadable", "open", m.clone());
                     }
+                    // nothing is "the same after saving and reopening" in a
+                    // file that does not reopen
+                    self.viol("C06.schema-reopen", "open", m.clone());
+                    self.viol("C10.getters-reopen", "open", m.clone());
+                    self.viol("C11.listing", "open", m);
                 }
                 self.done = true;
+                self.byte_oracle(image);
                 return;
             }
             Caught::Val(Ok(p)) => p,
@@ -1122,10 +1156,49 @@ impl<'a> Exec<'a> {
                 self.done = true;
             }
         }
-        if self.done {
+        let api_failed = self.done;
+        self.byte_oracle(image);
+        if api_failed || self.done {
             return;
         }
-        // C08 / C10: independent decode of the bytes
+        // C01: saving again with no change alters nothing
+        if self.aux(8) % 4 == 0 && !faulty {
+            self.stats.probe("resave_checked");
+            let st2 = Rc::new(RefCell::new(DiskState::new(image.to_vec(), fault_free(), Vec::new())));
+            let r = guarded(|| -> Result<Snap, String> {
+                let mut p = Package::open(SimDisk::new(st2.clone())).map_err(|e| e.to_string())?;
+                p.flush().map_err(|e| e.to_string())?;
+                let _ = p.into_inner().map_err(|e| e.to_string())?;
+                let img2 = st2.borrow().view.clone();
+                let st3 = Rc::new(RefCell::new(DiskState::new(img2, fault_free(), Vec::new())));
+                let mut p = Package::open(SimDisk::new(st3)).map_err(|e| e.to_string())?;
+                Ok(snapshot::take(&mut p))
+            });
+            self.stats.oracle_evals += 1;
+            match r {
+                Caught::Panic(loc, msg) => self.panic_violation("resave", loc, msg, false),
+                Caught::Val(Err(e)) => {
+                    self.viol("C01.resave-idempotent", "resave", format!("save and reopen with no change failed: {}", e));
+                    self.done = true;
+                }
+                Caught::Val(Ok(s2)) => {
+                    if s2 != snap {
+                        self.viol(
+                            "C01.resave-idempotent",
+                            "resave",
+                            format!("save and reopen with no change altered the package: {}", describe_snap_diff(&snap, &s2)),
+                        );
+                        self.done = true;
+                    }
+                }
+            }
+        }
+    }
+
+    /// C08 / C10: the saved bytes, decoded independently.  Evaluated whether
+    /// or not the API-level reopen agreed with the model.
+    fn byte_oracle(&mut self, image: &[u8]) {
+        let faulty = self.faults_in_play();
         if self.byte_level_failed {
             return;
         }
@@ -1169,41 +1242,6 @@ impl<'a> Exec<'a> {
                         }
                     }
                     self.byte_level_failed = true;
-                }
-            }
-        }
-        if self.done {
-            return;
-        }
-        // C01: saving again with no change alters nothing
-        if self.aux(8) % 4 == 0 && !faulty {
-            self.stats.probe("resave_checked");
-            let st2 = Rc::new(RefCell::new(DiskState::new(image.to_vec(), fault_free(), Vec::new())));
-            let r = guarded(|| -> Result<Snap, String> {
-                let mut p = Package::open(SimDisk::new(st2.clone())).map_err(|e| e.to_string())?;
-                p.flush().map_err(|e| e.to_string())?;
-                let _ = p.into_inner().map_err(|e| e.to_string())?;
-                let img2 = st2.borrow().view.clone();
-                let st3 = Rc::new(RefCell::new(DiskState::new(img2, fault_free(), Vec::new())));
-                let mut p = Package::open(SimDisk::new(st3)).map_err(|e| e.to_string())?;
-                Ok(snapshot::take(&mut p))
-            });
-            self.stats.oracle_evals += 1;
-            match r {
-                Caught::Panic(loc, msg) => self.panic_violation("resave", loc, msg, false),
-                Caught::Val(Err(e)) => {
-                    self.viol("C01.resave-idempotent", "resave", format!("save and reopen with no change failed: {}", e));
-                    self.done = true;
-                }
-                Caught::Val(Ok(s2)) => {
-                    if s2 != snap {
-                        self.viol(
-                            "C01.resave-idempotent",
-                            "resave",
-                            format!("save and reopen with no change altered the package: {}", describe_snap_diff(&snap, &s2)),
-                        );
-                        self.done = true;
-                    }
                 }
             }
         }
